@@ -69,8 +69,9 @@ pub fn deep_copy_array_data_sliced(data: &ArrayData) -> ArrayData {
     // Use MutableArrayData to efficiently copy just the slice
     let mut mutable = MutableArrayData::new(vec![data], false, data.len());
 
-    // Copy from offset to offset+len (the visible slice)
-    mutable.extend(0, data.offset(), data.offset() + data.len());
+    // Copy the visible slice.  `extend` takes positions relative to `data` (its offset is
+    // already applied by MutableArrayData), so the slice is `0..len`.
+    mutable.extend(0, 0, data.len());
 
     // Freeze into immutable ArrayData
     mutable.freeze()
@@ -145,6 +146,22 @@ pub mod tests {
         assert_eq!(copied_int.value(0), 2);
         assert_eq!(copied_int.value(1), 3);
         assert_eq!(copied_int.value(2), 4);
+    }
+
+    #[test]
+    fn test_deep_copy_array_sliced_with_data_offset() {
+        // A sliced BooleanArray keeps its offset in `ArrayData` (unlike primitive arrays,
+        // whose value buffer is sliced instead)
+        let array = arrow_array::BooleanArray::from(vec![
+            true, true, true, false, true, false, false, true, true, true,
+        ]);
+        let sliced = array.slice(3, 4);
+        assert_eq!(sliced.to_data().offset(), 3);
+        let copied = super::deep_copy_array_sliced(&sliced);
+        assert_eq!(copied.as_ref(), &sliced as &dyn Array);
+        let sliced = array.slice(7, 3);
+        let copied = super::deep_copy_array_sliced(&sliced);
+        assert_eq!(copied.as_ref(), &sliced as &dyn Array);
     }
 
     #[test]
